@@ -56,7 +56,7 @@ def bounds(tier):
 
 def _dummy_env():
     return {"acc": None, "msg": None, "table": None, "start": 0, "L": 1, "strand": "", "bits_list": [], "mask": None, "k": 1, "filter": None, "lm": {}, "root": 0, "seeds": [0],
-            "acc_b": None, "filter_b": None, "mask3": None, "mask1": None, "probe": ""}
+            "acc_b": None, "filter_b": None, "filter_w": None, "mask3": None, "mask1": None, "probe": ""}
 
 
 GRAPHS = {"GC2": scenarios.GC2, "MIXED1": scenarios.MIXED1, "GC2D": scenarios.GC2D}
@@ -119,6 +119,7 @@ def build_env(e, L, cfg, fresh_names=False):
         if sc == "variation":
             env["acc_b"] = A(graph_b(g))
             env["filter_b"] = L.LocalBioFilter(observed_length=k, gc_range=[0.0, 1.0] if k == 1 else [0.5, 0.5], undesired_motifs=MOTIFS_B[:k])
+            env["filter_w"] = L.LocalBioFilter(observed_length=k + 2, max_homopolymer_runs=2, gc_range=[0.0, 1.0])   # window WIDER than the vertices it screens
             env["mask3"] = A(MASK3, int)
             env["mask1"] = A([1, 1, 0, 1], int)
             env["probe"] = "ACGTTG"[:k + 2]
@@ -150,6 +151,7 @@ def build_env(e, L, cfg, fresh_names=False):
         if sc == "variation":
             sp["acc_b"] = arr(graph_b(g))
             sp["filter_b"] = ["filter", dict(observed_length=k, gc_range=[0.0, 1.0] if k == 1 else [0.5, 0.5], undesired_motifs=MOTIFS_B[:k])]
+            sp["filter_w"] = ["filter", dict(observed_length=k + 2, max_homopolymer_runs=2, gc_range=[0.0, 1.0])]
             sp["mask3"] = arr(MASK3)
             sp["mask1"] = arr([1, 1, 0, 1])
             sp["probe"] = ["str", "ACGTTG"[:k + 2]]
